@@ -146,7 +146,19 @@ def run_one(rec, variant):
                 diffs.append('second-solve-res' if variant['repeat'] == 'same' else 'second-solve-other-names-res')
             elif variant['repeat'] == 'same' and list(rs_model['trace'][tpos].index) != exp_labels + exp_labels:
                 diffs.append('second-solve-labels')
-            elif variant['repeat'] == 'same' and len(seg) >= 4 and not diffs:
+            elif variant['repeat'] == 'same' and exp_labels:
+                # the tabular view of the trace is the trace: one row per snapshot (repeated labels included), one column per name
+                T2 = rs_model['trace'][tpos]
+                try:
+                    df = T2.to_dataframe()
+                    okdf = (list(df.index) == list(T2.index) and list(df.columns) == list(T2.names)
+                            and df.shape == (len(T2.index), len(T2.names))
+                            and all(str(a) == str(b) for a, b in zip(df.to_numpy().T.ravel().tolist(), np.asarray(T2.values).ravel().tolist())))
+                except Exception as e:
+                    okdf = False
+                if not okdf:
+                    diffs.append('trace-dataframe')
+            if variant['repeat'] == 'same' and len(seg) >= 4 and not diffs and 'second' in obs:
                 # a long history of one period (well over a hundred snapshots): every further solve from the same starting
                 # state appends the same segment again, for every traced variable
                 reps = 2
